@@ -402,6 +402,8 @@ pub fn run_c18(tier: &str, root: &Path) -> Value {
         ("small3", {
             let mut v = base_config(3, None);
             v["change_provider"] = json!({"use": "git"});
+            // a raw multi-byte character (UTF-8 c3 a9) and an astral one (4 bytes) in a path
+            v["targets"][1]["path"] = json!("pkg/caf\u{e9}-\u{1F680}");
             v
         }),
         ("t40", base_config(40, None)),
@@ -431,6 +433,22 @@ pub fn run_c18(tier: &str, root: &Path) -> Value {
             }
         }
         if *bname == "small3" {
+            // place each byte of a multi-byte character on every multiple of 8192 up to 64 KiB, and
+            // on either side of it, by padding whitespace in front of the document
+            let mut compact = String::new();
+            ser(base, &ident, &tident, 0, 0, &mut compact);
+            if let Some(pos) = compact.find('\u{e9}') {
+                for b in [8192usize, 16384, 24576, 65536] {
+                    for shift in 0..9usize {
+                        // the first byte of the e-acute lands at b - 6 + shift, so both its bytes and
+                        // the four bytes of the following astral character cross the boundary in turn
+                        let want = b - 6 + shift;
+                        if want > pos {
+                            sers.push((format!("multibyte@{}{:+}", b, shift as i64 - 6), format!("{}{}", " ".repeat(want - pos), compact)));
+                        }
+                    }
+                }
+            }
             let perms = permutations(nkeys);
             let step = if thorough { 1 } else { 7 };
             for (pi, perm) in perms.iter().enumerate().step_by(step) {
@@ -486,7 +504,7 @@ pub fn run_c18(tier: &str, root: &Path) -> Value {
     rep.sample(json!({"base": "small3", "serialisation": "style1+pad8193@2", "bytes": 8193}));
     rep.sample(json!({"base": "t300", "serialisation": "style0", "note": "300 targets compact"}));
     rep.finish(
-        "bases {3 targets with uses/ignores/sequences/server, 40 targets, 300 targets} x serialisations {compact, pretty(2 spaces), pretty(tab)} x {as is, trailing newline, CRLF} x whitespace padding to total sizes {4096, 8191, 8192, 8193, 16384, 65535, 65536, 65537, 262144} at {start, after first brace, between two targets, end}; for the small base also every top-level key permutation (quick: every 7th) and every per-target key order; oracle: every serialisation is accepted by Config::new+check and yields the same configuration value as the compact form; non-trivial = serialisations larger than 8192 bytes",
+        "bases {3 targets with uses/ignores/sequences/server, 40 targets, 300 targets} x serialisations {compact, pretty(2 spaces), pretty(tab)} x {as is, trailing newline, CRLF} x whitespace padding to total sizes {4096, 8191, 8192, 8193, 16384, 65535, 65536, 65537, 262144} at {start, after first brace, between two targets, end}; for the small base (which contains a 2-byte and a 4-byte UTF-8 character) also paddings that put every byte of those characters on every multiple of 8192 up to 64 KiB, every top-level key permutation (quick: every 7th) and every per-target key order; oracle: every serialisation is accepted by Config::new+check and yields the same configuration value as the compact form; non-trivial = serialisations larger than 8192 bytes",
         true,
         json!({"bases": 3, "pad_sizes": sizes}),
     )
